@@ -531,6 +531,11 @@ def parse_tables(s):
 
 
 def oracle_on_case(ctx: Ctx, case, verbose=False):
+    if case.get("tag") == "e2e-mr":
+        v = e2e_mr_eval(case)
+        if v:
+            ctx.violation(v[0], v[1], case)
+        return None, None
     if case.get("tag") == "e2e":
         inp, res = run_e2e(case)
         v = oracle_e2e(case, inp, res)
@@ -577,8 +582,57 @@ def classify(case, r1):
     return changed, labels
 
 
+def e2e_mr_eval(case):
+    """several ranks with collectives, default options: the clock alignment (C07) is active and moves slices - the
+    durations must still be the cycle deltas of the INPUT counters over the SoC frequency, also for device events
+    without a phase keyword.  Returns (classifier, text) or None."""
+    from gen import scenario
+    f = case["freq"]
+    ranks = scenario.build_ranks(R=case["R"], groups=1, freq=float(f), seed=case["seed"], kernels=1)
+    for rk in ranks:
+        t = max(p[1]["ts"] for p in rk.events) - rk.host_epoch + 20.0
+        for j, gaps in enumerate(case["plain"]):
+            ts5 = [t]
+            for g in gaps:
+                ts5.append(ts5[-1] + g)
+            rk.dev_event(f"ScratchpadFlush_{j}", 140 + j, ts5)
+            t = ts5[4] + 5
+    files = {f"trace_rank_{rk.r}.json": rk.event_list() for rk in ranks}
+    with contextlib.redirect_stdout(io.StringIO()):
+        r = stage.e2e([f"--freq={_freq_arg(Fraction(f))}:1100", "--keep_prep", *case.get("opts", [])], files)
+    if r["error"] or r["rc"] != 0 or r["events"] is None:
+        return ("c06-crash", f"acelyzer failed on a well-formed {case['R']}-rank trace: rc={r['rc']} {r['error']}")
+    out = {e["args"]["uid"]: e for e in r["events"] if e.get("ph") == "X" and "uid" in e.get("args", {})}
+    for evs in files.values():
+        for b in evs:
+            a = b.get("attr")
+            if b["ph"] != "B" or not a:
+                continue
+            o = out.get(a["uid"])
+            if o is None:
+                return ("c06-lost", f"device slice {a['uid']} '{b['name']}' missing in the exported trace")
+            pair = stmt_pair(b["name"])
+            ts_in = [int(a[f"TS{i}"], 0) if isinstance(a[f"TS{i}"], str) else int(a[f"TS{i}"]) for i in range(1, 6)]
+            delta = (ts_in[pair[1]] - ts_in[pair[0]]) % (1 << 32)
+            if not _close(o["dur"], Fraction(delta) / Fraction(f), TOL):
+                return ("c06-dur", f"{case['R']} ranks, alignment active: exported slice '{b['name']}' has dur {o['dur']} != "
+                                   f"(TS{pair[1]+1}-TS{pair[0]+1})/freq = {float(Fraction(delta) / Fraction(f))}")
+    return None
+
+
 def run(ctx: Ctx):
     cases, reals = [], []
+    for _ in range(ctx.n(6, 40)):
+        rng = ctx.rng
+        case = {"tag": "e2e-mr", "freq": rng.choice([256, 512, 1024]), "R": rng.choice([2, 2, 3]), "seed": rng.randint(0, 10 ** 6),
+                "plain": [[rng.choice([0, 2, 5]), rng.choice([0, 1, 3]), rng.choice([1, 4]), rng.choice([0, 2])]
+                          for _j in range(rng.randint(1, 3))],
+                "opts": rng.choice([[], [], ["-t"], ["--flow"]])}
+        v = e2e_mr_eval(case)
+        if v:
+            ctx.violation(v[0], v[1], case)
+        ctx.count("stream:e2e-multi-rank")
+        ctx.case_done(case, nontrivial=True)
     for case in gen_cases(ctx):
         r1, r2 = oracle_on_case(ctx, case)
         nt, labels = classify(case, r1)
@@ -626,7 +680,7 @@ def run(ctx: Ctx):
 
 
 def shrink(ctx: Ctx, case, classifier):
-    if case.get("tag") == "e2e" or "events" not in case:
+    if case.get("tag") in ("e2e", "e2e-mr") or "events" not in case:
         return case
     case = copy.deepcopy(case)
     tol = TOL if case.get("tag") == "realistic" else 0
